@@ -180,6 +180,14 @@ def pyop(op, x, y):
 
 def build(t):
     kind = t[0]
+    if kind == "padded-unop":
+        # a unary operator over a value with CONSTANT low / high bits (zeros or ones), as left by concatenation with constants or by
+        # partially driven signals: back ends that shorten operands by their constant bits must not change the result
+        _, op, sh, lo_w, hi_w, ones = t
+        from amaranth.hdl import Cat, Const
+        lo_v = ((1 << lo_w) - 1) if ones else 0
+        hi_v = ((1 << hi_w) - 1) if ones else 0
+        return [sh], (lambda a: UNOPS[op](Cat(Const(lo_v, lo_w), a, Const(hi_v, hi_w)))), None
     if kind == "nested":
         shapes, tree = NESTED[t[1]]
         return list(shapes), (lambda *sigs: _make_nested(tree, sigs)), None
